@@ -3,6 +3,7 @@ import Bec2Verif.Model.Der
 import Bec2Verif.Model.PointCodec
 import Bec2Verif.Model.KeyDer
 import Bec2Verif.Model.CurveDer
+import Bec2Verif.Model.Pem
 import Bec2Verif.Gen.Curves
 open Bec2Verif Driver Der
 namespace Driver
@@ -155,8 +156,40 @@ def opCurveFromDer : List String → String
     | none => "bad-op"
   | _ => "bad-op"
 
+/-- pem.to <name-hex|-> <der-hex|-> : `der.topem(der, name)` -/
+def opPemTo : List String → String
+  | [name, d] => match parseHex (if name == "-" then "" else name), parseHex (if d == "-" then "" else d) with
+    | some n, some data => "ok " ++ toHex (Pem.topem data n)
+    | _, _ => "bad-op"
+  | _ => "bad-op"
+
+/-- pem.un <hex|-> : `der.unpem(pem)` on bytes -/
+def opPemUn : List String → String
+  | [d] => match parseHex (if d == "-" then "" else d) with
+    | some data => (match Pem.unpem data with
+      | .ok b => "ok " ++ (if b.isEmpty then "-" else toHex b)
+      | .error e => "err " ++ e.name)
+    | none => "bad-op"
+  | _ => "bad-op"
+
+/-- b64.enc / b64.dec <hex|-> : `base64.b64encode` / `base64.b64decode` -/
+def opB64Enc : List String → String
+  | [d] => match parseHex (if d == "-" then "" else d) with
+    | some data => "ok " ++ (let b := Pem.b64encode data; if b.isEmpty then "-" else toHex b)
+    | none => "bad-op"
+  | _ => "bad-op"
+
+def opB64Dec : List String → String
+  | [d] => match parseHex (if d == "-" then "" else d) with
+    | some data => (match Pem.b64decode data with
+      | .ok b => "ok " ++ (if b.isEmpty then "-" else toHex b)
+      | .error e => "err " ++ e.name)
+    | none => "bad-op"
+  | _ => "bad-op"
+
 def codecOps : List (String × (List String → String)) :=
   [("pt.enc", opPtEnc), ("pt.dec", opPtDec), ("nt.sqrt", opSqrt), ("spki", opSpki), ("spki.parse", opSpkiParse),
-   ("key.toder", opKeyToDer), ("key.fromder", opKeyFromDer), ("curve.toder", opCurveToDer), ("curve.fromder", opCurveFromDer)]
+   ("key.toder", opKeyToDer), ("key.fromder", opKeyFromDer), ("curve.toder", opCurveToDer), ("curve.fromder", opCurveFromDer),
+   ("pem.to", opPemTo), ("pem.un", opPemUn), ("b64.enc", opB64Enc), ("b64.dec", opB64Dec)]
 
 end Driver
